@@ -456,6 +456,9 @@ int main(int argc, char **argv) {
                         /* only calls that POSIX lets fail with EINTR and that callers are expected to retry */
                         if (!(cur->nr == SYS_read || cur->nr == SYS_pread64 || cur->nr == SYS_write ||
                               cur->nr == SYS_pwrite64 || cur->nr == SYS_open || cur->nr == SYS_openat)) { cur_fault = NULL; break; }
+                        /* opening a local directory never blocks, and opendir(3) callers do not retry: not a realistic fault */
+                        if ((cur->nr == SYS_open && (a[1] & O_DIRECTORY) == O_DIRECTORY) ||
+                            (cur->nr == SYS_openat && (a[2] & O_DIRECTORY) == O_DIRECTORY)) { cur_fault = NULL; break; }
                         /* fall through */
                     case F_ERR:
                         if (ptrace(PTRACE_GETREGS, child, 0, &regs) < 0) die("GETREGS");
